@@ -90,6 +90,125 @@ def skip_len_harness(I):
     return cl
 
 
+class ExitOnlyLoop:
+    """The field loop of decode taken only for where it can leave the function: every `return` statement inside the
+    body is a possible exit (executed in the real frame: their expressions read nothing the body assigns - frame
+    obligation), and the fall-through with everything the body assigns made arbitrary.  What the body does to the
+    message and whether it can raise is NOT covered by this rule (bounded part)."""
+
+    def __init__(self, which=None):
+        self.which = which  # None: every exit; k: only the k-th exit (the fall-through counts last); "rest": exits >= 3
+
+    def run_for(self, I, st, it):
+        import ast
+        from pyvc.interp import Opaque
+        fr = I.frames[-1]
+        assigned = set()
+        for n in ast.walk(st):
+            if isinstance(n, ast.Name) and isinstance(n.ctx, ast.Store):
+                assigned.add(n.id)
+        rets = [n for n in ast.walk(st) if isinstance(n, ast.Return)]
+        reads = set()
+        for r in rets:
+            for n in ast.walk(r):
+                if isinstance(n, ast.Name) and isinstance(n.ctx, ast.Load):
+                    reads.add(n.id)
+        I.ctx.site_obligs.append(("decode.loop_frame.exit_values_do_not_depend_on_the_loop_body", not (reads & assigned), len(I.ctx.pc)))
+        after = {"checksum_passed"}
+        I.ctx.site_obligs.append(("decode.loop_frame.only_checksum_passed_and_the_message_leave_the_loop",
+                                  (assigned - {"m", "toks", "tag", "value", "cheksum_base", "checksum", "ctx", "current_context"}) <= after,
+                                  len(I.ctx.pc)))
+        from pyvc.core import PathCut
+        exits = list(range(len(rets))) + ["fall_through"]
+        if self.which == "fall_through":
+            k = len(rets)
+        elif self.which == "rest":
+            if len(rets) <= 2:
+                raise PathCut()
+            k = 2 + I.ctx.choose(len(rets) - 2, "loop_exit")
+        elif self.which is not None:
+            if self.which >= len(rets):
+                raise PathCut()
+            k = self.which
+        else:
+            k = I.ctx.choose(len(rets) + 1, "loop_exit")
+        for name in assigned:
+            if name == "checksum_passed":
+                fr.locals[name] = I.ctx.fresh_bool("checksum_passed_after_loop")
+            elif name in fr.locals:
+                fr.locals[name] = Opaque("after_loop:" + name)
+        if k < len(rets):
+            I.exec_block([rets[k]])
+        I.exec_block(st.orelse)
+
+
+def contract_skip_len(I, args, kwargs):
+    """_skip_len by the contract proved in task _skip_len."""
+    buf, start = args[-2], args[-1]
+    r = I.ctx.fresh_int("skip_len")
+    L = z3.Length(_t(buf))
+    I.ctx.assume(SBool(z3.And(r.t >= 0, r.t <= L)))
+    if not (isinstance(start, int) and start < 0):
+        I.ctx.assume(SBool(z3.Implies(_t(start) >= 0, r.t > _t(start))))
+    else:
+        mk = z3.StringVal(MARKER)
+        kept = z3.SubString(_t(buf), r.t, L - r.t)
+        I.ctx.assume(SBool(z3.And(z3.PrefixOf(kept, mk), z3.Length(kept) < len(MARKER))))
+    return r
+
+
+def decode_cfg_for(which):
+    def f():
+        c = Config()
+        c.int_model = "lexical"
+        c.contracts[CODEC + "._skip_len"] = contract_skip_len
+        c.loop_rules[(CODEC + ".decode", 0)] = ExitOnlyLoop(which)
+        return c
+    return f
+
+
+def decode_framing_harness(I):
+    """Codec.decode(buf) in silent mode, field loop by its exits: what it reports as consumed."""
+    from pyvc.interp import Obj
+    c = I.ctx
+    repo = I.repo
+    proto = Obj(repo.get("asyncfix.protocol.protocol_fix44.FIXProtocol44"), {})
+    codec = Obj(repo.get(CODEC), {"protocol": proto, "SOH": "\x01"})
+    buf = c.inp_str("buf", is_bytes=True)
+    L = z3.Length(buf.t)
+    out = sc.run(I, I.getattr(codec, "decode"), [buf])
+    c.notes.append(("outcome", "ret" if out[0] == "ret" else "raise:" + out[1].name()))
+    cl = [("decode.framing_never_raises", out[0] == "ret")]
+    if out[0] != "ret":
+        return cl
+    res = out[1]
+    ok_shape = isinstance(res, tuple) and len(res) == 3
+    cl.append(("decode.returns_a_triple", ok_shape))
+    if not ok_shape:
+        return cl
+    msg, consumed, raw = res
+    mk = z3.StringVal(MARKER)
+    first = z3.IndexOf(buf.t, mk, 0)
+    ct = _t(consumed)
+    cl.append(("decode.consumed_between_zero_and_the_buffer_length", SBool(z3.And(ct >= 0, ct <= L))))
+    if msg is None:
+        cl.append(("decode.no_message_no_frame_bytes", raw is None))
+        # nothing consumed only while waiting for a frame whose start is at the head of the buffer (or for the rest of
+        # a frame-start marker): repeated decoding stops there, anything else makes progress
+        cl.append(("decode.waits_only_for_a_frame_at_the_head_of_the_buffer", SBool(z3.Implies(
+            ct == 0, z3.Or(first == 0, z3.And(first == -1, z3.PrefixOf(buf.t, mk), L < len(MARKER)))))))
+        # garbage in front of a frame start is dropped, the frame start itself never is (when the decoder waits)
+        cl.append(("decode.never_consumes_past_a_frame_it_did_not_look_at", SBool(z3.Implies(first == -1, z3.And(
+            z3.PrefixOf(z3.SubString(buf.t, ct, L - ct), mk), L - ct < len(MARKER))))))
+    else:
+        cl.append(("decode.a_message_consumes_bytes", SBool(ct > 0)))
+        okraw = isinstance(raw, SStr)
+        cl.append(("decode.frame_bytes_are_a_slice_of_the_buffer_at_the_frame_start",
+                   SBool(z3.And(first >= 0, z3.PrefixOf(raw.t, z3.SubString(buf.t, first, L - first)))) if okraw else False))
+        cl.append(("decode.consumed_reaches_past_the_frame_start", SBool(ct > first)))
+    return cl
+
+
 def mustfail(I):
     c = I.ctx
     cls = I.repo.get(CODEC)
@@ -121,8 +240,19 @@ TASKS = [
     Task("_skip_len", skip_len_harness, cfg, [CODEC + "._skip_len"], timeout_ms=180000, cvc5_first=True),
     Task("mustfail", mustfail, cfg, [], expect_refuted=True),
 ]
-for _t_ in TASKS:
+# NOT registered (kept for the record, see DESIGN 9.11): the framing section of Codec.decode with the field loop taken
+# by its exits (ExitOnlyLoop, SplitList model of str.split).  One complete run without pruning decided 10677 of 10759
+# conditions (80 undecided at 5 s, none refuted that is not a frame obligation) in 24 minutes on one core; with sound
+# pruning it does not finish within half an hour.  Too slow and too fragile to be a registered check; decode stays with
+# the bounded part.
+FRAMING_TASKS = [
+    Task("decode[framing,loop_exit=%s]" % w, decode_framing_harness, decode_cfg_for(w), [CODEC + ".decode"], timeout_ms=20000,
+         cvc5_first=True, prune="abstract") for w in (0, 1, "rest", "fall_through")]
+for _t_ in TASKS + FRAMING_TASKS:
     _t_.cover = False
+for _t_ in FRAMING_TASKS:
+    _t_.z3_out_of_process = True  # (substr / indexof queries: the in-process check can overrun its timeout)
+    _t_.abstract_strings = True
 
 
 def replay_case(task, vc):
